@@ -4057,4 +4057,43 @@ theorem wm_run {n : Nat} (h : List WEv) : ∀ (w : World), WM n w → (∀ e ∈
     intro w hw hm
     exact ih (stepW w e) (wm_step hw (hm e (by simp))) (fun e' he' => hm e' (by simp [he']))
 
+
+/-- in a world satisfying `WInv` (every world reached by a sample history), the next report or
+sample about a member is an admissible notification for the set of its domain -/
+theorem notifyOk_of_winv {n : Nat} {w : World} (hw : WInv n w) (hh : w.g.hasSets = true) {t d : Nat}
+    (hd : d < n) (snap : Option Int)
+    (hs : ((w.colls t d).snapshot w.g.policy 0).isSome = true → snap ≠ none) :
+    NotifyOk (w.g.sets t) d snap := by
+  obtain ⟨i1, i2, i3, _⟩ := hw.ginv.sets hh t
+  refine ⟨by rw [i3, hw.hn]; exact hd, ?_⟩
+  intro _ hl
+  exact hs (hw.link hh t d hl)
+
+/-- the sets of domain `t` after `toldStep` -/
+theorem toldStep_sets (w : World) (hh : w.g.hasSets = true) (t d : Nat) (a : Bool) :
+    (toldStep w t d a).1.g.sets t = (notify (w.g.sets t) d a (w.snap w.g.policy t d)).1 := by
+  unfold toldStep
+  simp only
+  rw [(gNotify_frame w.g t d a _).2.2.2, hh]
+  simp [upd]
+
+/-- **switch rule, world level** -/
+theorem switch_world {n : Nat} {w : World} (hw : WInv n w) (hh : w.g.hasSets = true)
+    (hm : w.g.policy.isMin = true) {t d : Nat} (a : Bool) (hd : d < n) {b b' : Nat}
+    (hs : ((w.colls t d).snapshot w.g.policy 0).isSome = true → w.snap w.g.policy t d ≠ none)
+    (hb : (w.g.sets t).minD = some b) (hb' : ((toldStep w t d a).1.g.sets t).minD = some b') (hne : b ≠ b') :
+    let s' := (toldStep w t d a).1.g.sets t
+    (¬ ∃ e ∈ s'.entries, e.d = b) ∨ s'.lat b = none ∨
+    (∃ eb ∈ s'.entries, ∃ eb' ∈ s'.entries, eb.d = b ∧ eb'.d = b' ∧ eb'.sl ≤ eb.sl ∧
+      (eb'.sl + (w.g.sets t).tol ≤ eb.sl ∨ eb.sl < (w.g.sets t).tol)) := by
+  intro s'
+  obtain ⟨i1, i2, _⟩ := hw.ginv.sets hh t
+  have ok := notifyOk_of_winv hw hh hd (w.snap w.g.policy t d) hs
+  have hsm : (w.g.sets t).policy.isMin = true := by rw [i2]; exact hm
+  have e := toldStep_sets w hh t d a
+  have : s' = (notify (w.g.sets t) d a (w.snap w.g.policy t d)).1 := e
+  rw [this]
+  rw [e] at hb'
+  exact switch_notify i1 hsm ok hb hb' hne
+
 end DaeVerif.C15
